@@ -27,11 +27,9 @@ func MarshalJSON[T any](t TestingT, cases []CaseJSON[T]) {
 	t.Helper()
 
 	for i, c := range cases {
-		if i == 0 {
-			if _, ok := any(c.Value).(json.Marshaler); !ok {
-				assert.FailNowf(t, "unable to test MarshalJSON", "type %T must implements json.Marshaler", c.Value)
-				return
-			}
+		if _, ok := any(c.Value).(json.Marshaler); !ok {
+			assert.FailNowf(t, "unable to test MarshalJSON", "type %T must implements json.Marshaler", c.Value)
+			return
 		}
 
 		if !isForMarshal(c.Constraint) {
@@ -64,11 +62,9 @@ func UnmarshalJSON[T any](t TestingT, cases []CaseJSON[T], helper TypeHelper[T])
 
 	var f func(*T) json.Unmarshaler
 	for i, c := range cases {
-		if i == 0 {
-			if f = castToFunc[T, json.Unmarshaler](c.Value); f == nil {
-				assert.FailNowf(t, "unable to test UnmarshalJSON", "type %T must implements json.Unmarshaler", c.Value)
-				return
-			}
+		if f = castToFunc[T, json.Unmarshaler](c.Value); f == nil {
+			assert.FailNowf(t, "unable to test UnmarshalJSON", "type %T must implements json.Unmarshaler", c.Value)
+			return
 		}
 
 		if !isForUnmarshal(c.Constraint) {
